@@ -393,6 +393,12 @@ struct url_aggregator : url_base {
   template <bool override_hostname = false>
   bool set_host_or_hostname(std::string_view input);
 
+  /**
+   * The port setter. When enforce_max_length is false the caller is
+   * responsible for checking the resulting href size (and for rolling back).
+   */
+  bool set_port_impl(std::string_view input, bool enforce_max_length);
+
   ada_really_inline bool parse_host(std::string_view input);
 
   inline void update_base_authority(std::string_view base_buffer,
